@@ -42,7 +42,8 @@ class EventDispatcherStub(object):
 
 def new_engine():
     from asl_workflow_engine.state_engine import StateEngine
-    tmp = tempfile.mkdtemp()
+    from natives.sim import _tmp_root
+    tmp = tempfile.mkdtemp(dir=_tmp_root())
     config = {"state_engine": {"store_url": os.path.join(tmp, "ASL_store.json"), "execution_ttl": 500}}
     engine = StateEngine(config)
     return engine, EventDispatcherStub(engine)
